@@ -314,8 +314,36 @@ func (f *evVheld) Call(s *slip.Scope, args slip.List, depth int) slip.Object {
 	return slip.True
 }
 
+type evVopen struct{ slip.Function }
+
+// Call reports whether the stream argument is open.
+func (f *evVopen) Call(s *slip.Scope, args slip.List, depth int) slip.Object {
+	slip.CheckArgCount(s, depth, f, args, 1, 1)
+	st, ok := args[0].(slip.Stream)
+	if !ok {
+		slip.TypePanic(s, depth, "stream", args[0], "stream")
+	}
+	if fs, isFile := args[0].(*slip.FileStream); isFile {
+		// IsOpen of a file stream tries an empty write, which fails on a stream opened for input: ask the file itself
+		if _, err := (*os.File)(fs).Stat(); err == nil {
+			return slip.True
+		}
+		return nil
+	}
+	if st.IsOpen() {
+		return slip.True
+	}
+	return nil
+}
+
 func evDefine() {
 	evDefOnce.Do(func() {
+		slip.Define(func(args slip.List) slip.Object {
+			f := evVopen{Function: slip.Function{Name: "vopen", Args: args}}
+			f.Self = &f
+			return &f
+		}, &slip.FuncDoc{Name: "vopen", Args: []*slip.DocArg{{Name: "stream", Type: "stream"}}, Return: "boolean",
+			Text: "verification probe: is the stream open"}, &slip.UserPkg)
 		slip.Define(func(args slip.List) slip.Object {
 			f := evVtr{Function: slip.Function{Name: "vtr", Args: args}}
 			f.Self = &f
@@ -378,6 +406,8 @@ func evCanonTo(b *strings.Builder, obj slip.Object) {
 		b.WriteString("#<fn>")
 	case *gi.Mutex:
 		b.WriteString("#<mutex>")
+	case *slip.FileStream:
+		b.WriteString("#<file-stream>")
 	case *slip.ReturnResult:
 		b.WriteString("#<return-result>")
 	default:
@@ -495,7 +525,64 @@ var (
 	evGaveUp   []string
 )
 
-var evDeadline = 10 * time.Second
+// Limits of one program on the implementation side. They are CPU time of the worker process (read
+// from /proc), never wall clock: on a machine at load 100 a healthy worker may need minutes of wall
+// clock for what is 50 ms of work. A worker is given up as "hang" only when
+//   (a) it has consumed more than evCPULimit of CPU time on this one program, or
+//   (b) it is blocked: no CPU progress at all and every thread asleep for evBlockedSamples
+//       consecutive samples (a mutex that is never released), or
+//   (c) the distant wall-clock backstop evWallBackstop has passed.
+// and then only after the same program, re-run alone on a fresh worker, was given up again.
+var (
+	evCPULimit       = 8 * time.Second
+	evBlockedSamples = 15
+	evWallBackstop   = 30 * time.Minute
+	evHangs          int
+)
+
+const evClockTick = 100 // USER_HZ on Linux
+
+// evProcSample returns the CPU time consumed so far by the process and whether every one of its
+// threads is asleep (state S). ok=false: /proc is not readable (the caller falls back to wall clock).
+func evProcSample(pid int) (cpu time.Duration, asleep bool, ok bool) {
+	parse := func(path string) (state byte, ticks int64, ok bool) {
+		b, err := os.ReadFile(path)
+		if err != nil {
+			return 0, 0, false
+		}
+		s := string(b)
+		i := strings.LastIndexByte(s, ')')
+		if i < 0 {
+			return 0, 0, false
+		}
+		f := strings.Fields(s[i+1:])
+		if len(f) < 13 {
+			return 0, 0, false
+		}
+		ut, e1 := strconv.ParseInt(f[11], 10, 64)
+		st, e2 := strconv.ParseInt(f[12], 10, 64)
+		if e1 != nil || e2 != nil {
+			return 0, 0, false
+		}
+		return f[0][0], ut + st, true
+	}
+	_, ticks, ok := parse(fmt.Sprintf("/proc/%d/stat", pid))
+	if !ok {
+		return 0, false, false
+	}
+	asleep = true
+	tasks, err := os.ReadDir(fmt.Sprintf("/proc/%d/task", pid))
+	if err != nil {
+		asleep = false
+	}
+	for _, t := range tasks {
+		st, _, ok2 := parse(fmt.Sprintf("/proc/%d/task/%s/stat", pid, t.Name()))
+		if !ok2 || st != 'S' {
+			asleep = false
+		}
+	}
+	return time.Duration(ticks) * time.Second / evClockTick, asleep, true
+}
 
 func evWorkerStart() *evWorkerProc {
 	cmd := exec.Command(os.Args[0], "evalworker")
@@ -529,9 +616,35 @@ func evWorkerStart() *evWorkerProc {
 	return w
 }
 
-// evRunImpl evaluates the program on the real slip (in the worker). A worker that does not answer
-// within the deadline or dies is observed as kind "hang" / "died".
+// evRunImpl evaluates the program on the real slip (in the worker). A worker that exceeds the CPU
+// limit / is blocked, or dies, is observed as kind "hang" / "died" — after the program was re-run
+// alone on a fresh worker with the same result (a verdict never rests on one attempt).
 func evRunImpl(cs evCase) evObs {
+	o := evRunImplOnce(cs, evCPULimit)
+	if o.kind != "hang" && o.kind != "died" {
+		return o
+	}
+	if evNoRetry {
+		return o
+	}
+	// alone, on a fresh worker, with a doubled CPU allowance
+	o2 := evRunImplOnce(cs, 2*evCPULimit)
+	if o2.kind == "hang" || o2.kind == "died" {
+		evHangs++
+		if evHangs >= 4 && evCPULimit > 2*time.Second {
+			// a tree on which many programs never return: the verdict is settled, spend less on each
+			evCPULimit = 2 * time.Second
+		}
+		if len(evGaveUp) < 8 {
+			evGaveUp = append(evGaveUp, o2.kind+": "+cs.src)
+		}
+	}
+	return o2
+}
+
+var evNoRetry bool // shrinking: candidates are judged by one attempt
+
+func evRunImplOnce(cs evCase, cpuLimit time.Duration) evObs {
 	// the interpreter keeps every function and global variable ever defined: a fresh worker every few
 	// thousand programs keeps the cost per program flat
 	if evW != nil && evServed >= 3000 {
@@ -550,29 +663,58 @@ func evRunImpl(cs evCase) evObs {
 		_ = w.cmd.Wait()
 		evW = nil
 		evRestarts++
-		if len(evGaveUp) < 8 {
-			evGaveUp = append(evGaveUp, kind+": "+cs.src)
-		}
 		if os.Getenv("VERIF_EV_DEBUG") != "" {
 			fmt.Fprintf(os.Stderr, "worker %s on: %s\n", kind, cs.src)
 		}
 		return evObs{kind: kind}
 	}
+	cpu0, _, procOK := evProcSample(w.cmd.Process.Pid)
 	if _, err := io.WriteString(w.in, cs.src+"\n"); err != nil {
 		return giveUp("died")
 	}
-	select {
-	case line, ok := <-w.lines:
-		if !ok {
-			return giveUp("died")
+	start := time.Now()
+	blocked := 0
+	lastCPU := cpu0
+	tick := 250 * time.Millisecond
+	for {
+		select {
+		case line, ok := <-w.lines:
+			if !ok {
+				return giveUp("died")
+			}
+			f := strings.Split(line, "\t")
+			if len(f) != 5 {
+				return giveUp("died")
+			}
+			return evObs{kind: f[0], value: f[1], trace: f[2], locks: f[3], msg: lib.Unhex(f[4])}
+		case <-time.After(tick):
+			if tick < time.Second {
+				tick *= 2
+			}
+			if time.Since(start) > evWallBackstop {
+				return giveUp("hang")
+			}
+			cpu, asleep, ok := evProcSample(w.cmd.Process.Pid)
+			if !ok || !procOK {
+				// no /proc: wall clock with a generous allowance is all there is
+				if time.Since(start) > 30*cpuLimit {
+					return giveUp("hang")
+				}
+				continue
+			}
+			if cpu-cpu0 > cpuLimit {
+				return giveUp("hang")
+			}
+			if asleep && cpu == lastCPU {
+				blocked++
+				if blocked >= evBlockedSamples {
+					return giveUp("hang")
+				}
+			} else {
+				blocked = 0
+			}
+			lastCPU = cpu
 		}
-		f := strings.Split(line, "\t")
-		if len(f) != 5 {
-			return giveUp("died")
-		}
-		return evObs{kind: f[0], value: f[1], trace: f[2], locks: f[3], msg: lib.Unhex(f[4])}
-	case <-time.After(evDeadline):
-		return giveUp("hang")
 	}
 }
 
